@@ -5,6 +5,7 @@ import (
 	"fmt"
 	"os"
 	"reflect"
+	"regexp"
 	"strings"
 
 	mxj "github.com/clbanning/mxj/v2"
@@ -27,6 +28,7 @@ type c17op struct {
 	Name   string `json:"op"`
 	Shared bool   `json:"on_shared"`
 	A, B   string
+	Sub    []string
 	Doc    string
 	N      int
 }
@@ -59,6 +61,7 @@ func res(v interface{}, err error) string {
 }
 
 func (o *c17op) exec(e *c17env) (out string) {
+	e.c.opSteps = 0 // (in the concurrent phase this makes the bound apply to the tasks' interleaved steps since the last operation start)
 	defer func() {
 		if r := recover(); r != nil {
 			if _, ok := r.(stepLimit); ok {
@@ -96,19 +99,19 @@ func (o *c17op) exec(e *c17env) (out string) {
 	case 6:
 		return S.StringIndent()
 	case 7:
-		v, err := S.ValuesForPath(o.A)
+		v, err := S.ValuesForPath(o.A, o.Sub...)
 		return res(v, err)
 	case 8:
 		v, err := S.ValueForPath(o.A)
 		return res(v, err)
 	case 9:
-		v, err := S.Exists(o.A)
+		v, err := S.Exists(o.A, o.Sub...)
 		return res(v, err)
 	case 10:
-		v, err := S.ValuesForKey(o.B)
+		v, err := S.ValuesForKey(o.B, o.Sub...)
 		return res(v, err)
 	case 11:
-		v, err := S.ValueForKey(o.B)
+		v, err := S.ValueForKey(o.B, o.Sub...)
 		return res(v, err)
 	case 12:
 		return res(S.PathsForKey(o.B), nil)
@@ -243,7 +246,10 @@ func (o *c17op) exec(e *c17env) (out string) {
 	case 38:
 		r := NewSimReader(e.c, fmt.Sprintf("hr%x", uint64(HashStr(o.Doc))&0xffff), []byte(o.Doc), &ReadSched{ErrAt: -1, CutAt: -1, Chunk: o.N % 3, ChunkSeed: uint64(o.N), EOFWithData: o.N%2 == 1})
 		var sb strings.Builder
-		err := mxj.HandleXmlReaderRaw(r, func(m mxj.Map, raw []byte) bool { sb.WriteString(res(asIface(m), nil) + string(raw) + ";"); return true },
+		err := mxj.HandleXmlReaderRaw(r, func(m mxj.Map, raw []byte) bool {
+			sb.WriteString(res(asIface(m), nil) + string(raw) + ";")
+			return true
+		},
 			func(err error, raw []byte) bool { sb.WriteString("E:" + err.Error()); return false })
 		return sb.String() + res(nil, err)
 	case 39:
@@ -447,7 +453,7 @@ func runC17(c *Ctx) *Violation {
 			return nil
 		}
 	} else {
-		sdoc = genXMLDoc(t, XMLOpts{Mixed: true, MaxKids: 5, MaxDepth: 4})
+		sdoc = genXMLDoc(t, XMLOpts{Mixed: true, MaxKids: 5, MaxDepth: 4, Wide: t.Draw(4) == 3})
 		if v := safely(c, "gen", func() { S, err = mxj.NewMapXml([]byte(sdoc), t.Draw(3) == 2) }); v != nil || err != nil {
 			return nil
 		}
@@ -456,9 +462,13 @@ func runC17(c *Ctx) *Violation {
 	if v := safely(c, "gen", func() { SS, err = mxj.NewMapXmlSeq([]byte(ssdoc)) }); v != nil || err != nil {
 		return nil
 	}
-	if t.Draw(3) == 2 {
-		mxj.XMLEscapeChars(true)
+	escape := t.Draw(3) == 2
+	applyOpts := func() {
+		if escape {
+			mxj.XMLEscapeChars(true)
+		}
 	}
+	applyOpts()
 	c.Put("shared_map_from", sdoc)
 	c.Put("shared_mapseq_from", ssdoc)
 
@@ -481,6 +491,17 @@ func runC17(c *Ctx) *Violation {
 		}
 	}
 	keys = append(keys, "*", "nosuch")
+	idx := regexp.MustCompile(`\[\d+\]`)
+	for _, p := range S.LeafPaths() {
+		if q := idx.ReplaceAllString(p, ""); q != p {
+			paths = append(paths, q)
+			if i := strings.LastIndexByte(q, '.'); i > 0 {
+				paths = append(paths, q[:i], q[:i]+".*")
+			}
+		}
+	}
+	// a small pool of sub-key specifications shared by all tasks (so that two tasks use the same one)
+	specs := []string{keys[t.Draw(len(keys))] + ":*", "!" + keys[t.Draw(len(keys))] + ":v", keys[t.Draw(len(keys))] + ":1:num"}
 
 	ntasks := 2 + t.Small(5)
 	progs := make([][]*c17op, ntasks)
@@ -497,6 +518,12 @@ func runC17(c *Ctx) *Violation {
 			o.A = paths[t.Draw(len(paths))]
 			o.B = keys[t.Draw(len(keys))]
 			o.N = t.Draw(6)
+			if t.Draw(3) == 0 {
+				o.Sub = []string{specs[t.Draw(len(specs))]}
+				if t.Draw(3) == 0 {
+					o.Sub = append(o.Sub, specs[t.Draw(len(specs))])
+				}
+			}
 			switch o.Kind {
 			case 1, 3, 21, 34, 35, 39:
 				o.A, o.B = indentStrs[t.Draw(len(indentStrs))], indentStrs[1+t.Draw(len(indentStrs)-1)]
@@ -539,8 +566,8 @@ func runC17(c *Ctx) *Violation {
 				switch {
 				case o.Doc != "":
 					n += "(" + clip(o.Doc, 60) + ")"
-				case o.Kind >= 7 && o.Kind <= 18 || o.Kind == 30 || o.Kind == 28:
-					n += fmt.Sprintf("(%q,%q)", o.A, o.B)
+				case o.Kind >= 7 && o.Kind <= 18 || o.Kind == 30 || o.Kind == 28 || o.Kind == 40:
+					n += fmt.Sprintf("(%q,%q,%q)", o.A, o.B, o.Sub)
 				}
 				names = append(names, n)
 			}
@@ -549,7 +576,7 @@ func runC17(c *Ctx) *Violation {
 		c.Put("task_programs", pr)
 	}
 
-	d0, dss0, g0 := Digest(map[string]interface{}(S)), Digest(map[string]interface{}(SS)), fastGlobalsDigest()
+	d0, dss0, g0 := DigestCap(map[string]interface{}(S)), DigestCap(map[string]interface{}(SS)), fastGlobalsDigest()
 	var gBase []Hash
 	if s3Enabled {
 		gBase = perGlobalDigests()
@@ -576,7 +603,7 @@ func runC17(c *Ctx) *Violation {
 			total += int(c.Steps - before)
 			seq[i] = append(seq[i], out)
 			c.C["probe.s5_checked"]++
-			if Digest(map[string]interface{}(S)) != d0 || Digest(map[string]interface{}(SS)) != dss0 {
+			if DigestCap(map[string]interface{}(S)) != d0 || DigestCap(map[string]interface{}(SS)) != dss0 {
 				return &Violation{"C17.s5-receiver-modified/" + o.Name, fmt.Sprintf("%s changed its receiver (sequential execution): now %s", o.Name, clip(Canon(map[string]interface{}(S)), 400))}
 			}
 			if strings.HasPrefix(out, "COPY-SHARES:") {
@@ -589,7 +616,11 @@ func runC17(c *Ctx) *Violation {
 	}
 	curPol = nil
 
-	// ---- concurrent run under the seeded scheduler
+	// ---- concurrent run under the seeded scheduler, from a pristine package state: the
+	// sequential run must not pre-warm caches or lazily initialised tables, whose first
+	// use is exactly where unsynchronised code goes wrong
+	resetPackageState()
+	applyOpts()
 	sp := drawSchedPolicy(t, ntasks, total+1)
 	c.Put("schedule_policy", sp.String())
 	s := newSched(c, sp)
@@ -616,7 +647,7 @@ func runC17(c *Ctx) *Violation {
 	}
 	s.invariant = func(site int) *Violation {
 		c.C["probe.invariant_evaluations"]++
-		if Digest(map[string]interface{}(S)) != d0 || Digest(map[string]interface{}(SS)) != dss0 {
+		if DigestCap(map[string]interface{}(S)) != d0 || DigestCap(map[string]interface{}(SS)) != dss0 {
 			return &Violation{"C17.s2-shared-receiver-written", fmt.Sprintf("the shared receiver was written during a read-only operation (task %d, %s): a data race with every other reader", s.cur.id, siteName(site))}
 		}
 		if s3Enabled && fastGlobalsDigest() != g0 {
@@ -640,7 +671,7 @@ func runC17(c *Ctx) *Violation {
 	if s.viol != nil {
 		return s.viol
 	}
-	if Digest(map[string]interface{}(S)) != d0 || Digest(map[string]interface{}(SS)) != dss0 {
+	if DigestCap(map[string]interface{}(S)) != d0 || DigestCap(map[string]interface{}(SS)) != dss0 {
 		return &Violation{"C17.s2-shared-receiver-written", "the shared receiver differs after the concurrent run"}
 	}
 	// S1
